@@ -553,19 +553,22 @@ func (ex *Exec) Sanitize(r *Replacer, seg *smt.Term, lower bool) *smt.Term {
 		}
 	}
 	plain := ex.C.InRe(seg, `(re.* (re.union `+ReLower+` `+ReUpper+` `+ReDigit+`))`)
-	// R(seg): the Replace result itself
+	// R(seg): the Replace result itself. Only the length bound is needed to explore paths; the
+	// alphabet and the exactness on plain segments are part of the input domain (applied when a
+	// counterexample or a model is asked for), which keeps feasibility queries cheap.
 	rr := ex.C.UF("replace", []string{smt.String}, smt.String, seg)
-	ex.AssumeNoCheck(ex.C.InRe(rr, `(re.* (re.union `+ReLower+` `+ReUpper+` `+ReDigit+`))`))
 	ex.AssumeNoCheck(ex.C.Le(ex.C.Len(rr), ex.C.Len(seg)))
-	ex.AssumeNoCheck(ex.C.Implies(plain, ex.C.Eq(rr, seg)))
+	ex.AssumeDomain(ex.C.InRe(rr, `(re.* (re.union `+ReLower+` `+ReUpper+` `+ReDigit+`))`))
+	ex.AssumeDomain(ex.C.Implies(plain, ex.C.Eq(rr, seg)))
 	if !lower {
 		return rr
 	}
 	u := ex.C.UF("sanitize", []string{smt.String}, smt.String, seg)
-	ex.AssumeNoCheck(ex.C.InRe(u, `(re.* (re.union `+ReLower+` `+ReDigit+`))`))
-	ex.AssumeNoCheck(ex.C.Eq(ex.C.Len(u), ex.C.Len(rr)))
+	ex.AssumeNoCheck(ex.C.Le(ex.C.Len(u), ex.C.Len(seg)))
+	ex.AssumeDomain(ex.C.InRe(u, `(re.* (re.union `+ReLower+` `+ReDigit+`))`))
+	ex.AssumeDomain(ex.C.Eq(ex.C.Len(u), ex.C.Len(rr)))
 	// a segment with no special character at all is only lower-cased
-	ex.AssumeNoCheck(ex.C.Implies(plain, ex.C.Eq(u, ex.CaseMap(seg, false, ex.strBound()))))
+	ex.AssumeDomain(ex.C.Implies(plain, ex.C.Eq(u, ex.CaseMap(seg, false, ex.strBound()))))
 	ex.User["replacerSpecial"] = special
 	return u
 }
